@@ -148,7 +148,16 @@ impl Child {
                     // cpoll above.  Like a real child that is not fused, the script does not answer harmlessly: a
                     // finished stream produces one more item and a finished future resolves again, with a value of
                     // its own, so that whatever the combinator does with the answer shows in its results too.
-                    (if stream { "gs".to_string() } else { "gr".to_string() }, true, vec![])
+                    // (at most a few times per run: a combinator that keeps coming back would never stop otherwise)
+                    let again = with(|w| {
+                        w.ghosts += 1;
+                        w.ghosts <= 3
+                    });
+                    if again {
+                        (if stream { "gs".to_string() } else { "gr".to_string() }, true, vec![])
+                    } else {
+                        (if stream { "n".to_string() } else { "p".to_string() }, true, vec![])
+                    }
                 } else if stream {
                     ("n".to_string(), true, vec![])
                 } else {
